@@ -84,6 +84,7 @@ struct Knobs {
     int invalid_pub_pct = 0;     // publishes that fail validation (must be refused at once and leave no trace in quota / ids)
     int rm_change_pct = 0;       // the broker announces a different Receive Maximum (or none) on later connections
     int suback_fail_pct = 15, suback_all_fail_pct = 5;
+    int sub_burst_pct = 0;
     int signal_pct = 0;          // per request: bound to a cancellation slot and signalled (total / partial, rarely terminal) some time after initiation
     int drop_ack_pct = 0;        // scenarios in which the broker withholds acknowledgements on a live connection for the first 30 s (only the 20 s sentry helps)
     int own_limit_pct = 0;       // the client announces a Maximum Packet Size; the broker sends messages exactly at / just below it
@@ -169,8 +170,10 @@ Scenario gen_mix(vu::Rng& rng, const Knobs& k, const std::string& family) {
         }
         sc.script.push_back(p);
     }
+    // subscribe / unsubscribe requests issued in one burst stay outstanding together and are acknowledged out of order
+    vt sub_burst_at = (vt)rng.range(0, k.span); bool sub_burst = (int)rng.below(100) < k.sub_burst_pct;
     for (int i = 0; i < k.subs; ++i) {
-        Action s; s.kind = Action::subscribe; s.at = (vt)rng.range(0, k.span);
+        Action s; s.kind = Action::subscribe; s.at = sub_burst ? sub_burst_at + (vt)rng.range(0, 2) * MS : (vt)rng.range(0, k.span);
         int n = (int)rng.range(1, 3);
         for (int j = 0; j < n; ++j) s.subs.emplace_back("f" + std::to_string(j) + "/" + rng.pick(std::vector<std::string>{"a/+", "b/#", "c", "+/x", "d/e/f", "#"}), uint8_t(rng.below(3) | (rng.below(2) << 2) | (rng.below(2) << 3) | (rng.below(3) << 4)));
         if (rng.chance(1, 3)) { ref::Prop u; u.id = 0x26; u.s1 = "k"; u.s2 = "v"; s.props.push_back(u); }
@@ -178,7 +181,7 @@ Scenario gen_mix(vu::Rng& rng, const Knobs& k, const std::string& family) {
         sc.script.push_back(s);
     }
     for (int i = 0; i < k.unsubs; ++i) {
-        Action s; s.kind = Action::unsubscribe; s.at = (vt)rng.range(0, k.span);
+        Action s; s.kind = Action::unsubscribe; s.at = sub_burst ? sub_burst_at + (vt)rng.range(0, 300) * MS : (vt)rng.range(0, k.span);
         int n = (int)rng.range(1, 3);
         for (int j = 0; j < n; ++j) s.subs.emplace_back("u/" + std::to_string(j) + "/+", 0);
         sc.script.push_back(s);
@@ -307,7 +310,7 @@ Knobs knobs_for(const std::string& family) {
     else if (family == "c08-mix") { k.pubs_min = 5; k.pubs_max = 40; k.subs = 2; k.unsubs = 2; k.faults_max = 2; k.inbound = 3; k.signal_pct = 12; }
     else if (family == "c11-mix") { k.keep_alive = 2; k.faults_max = 3; k.bad_attempts_max = 3; k.pubs_max = 8; k.ack_delay_max = 500 * MS; k.suffix = 60 * SEC; }
     else if (family == "c13-mix") { k.pubs_max = 4; k.subs = 2; k.faults_max = 3; k.lose_session_pct = 60; k.inbound = 2; k.authenticator_pct = 25; k.suback_all_fail_pct = 25; }
-    else if (family == "c14-mix") { k.pubs_max = 2; k.subs = 3; k.unsubs = 2; k.faults_max = 2; k.signal_pct = 10; k.suback_fail_pct = 30; k.suback_all_fail_pct = 10; }
+    else if (family == "c14-mix") { k.pubs_max = 2; k.subs = 3; k.unsubs = 2; k.faults_max = 2; k.signal_pct = 10; k.suback_fail_pct = 30; k.suback_all_fail_pct = 10; k.subs = 5; k.unsubs = 4; k.sub_burst_pct = 50; k.ack_delay_max = 150 * MS; }
     else if (family == "c14-hostile") { k.pubs_max = 2; k.subs = 3; k.unsubs = 2; k.faults_max = 1; k.inbound = 0; k.hostile_count_pct = 35; k.hostile_rc_pct = 15; }
     else if (family == "c01-hostile-rc") { k.inbound = 0; k.qos_w[0] = 0; k.qos_w[1] = 1; k.qos_w[2] = 1; k.subs = 0; k.faults_max = 1; k.hostile_rc_pct = 20; }
     return k;
